@@ -3,6 +3,10 @@
 S = "internal/server"
 
 CHECKS = {
+    "C07": {"level": "model_checking",
+            "parts": [{"pkg": S, "check": "c07", "shards": 16, "gomaxprocs": 1},
+                      {"pkg": S, "check": "c07lock", "shards": 4, "gomaxprocs": 2, "params": {"repo": "/repo"}}],
+            "quick": {"budget_s": 120, "params": {"bound": 2}}, "thorough": {"budget_s": 1500, "params": {"bound": 3}}},
     "C04": {"level": "fault_enumeration",
             "parts": [{"pkg": S, "check": "c04", "shards": 16, "gomaxprocs": 2}],
             "quick": {"budget_s": 100}, "thorough": {"budget_s": 1200}},
